@@ -43,3 +43,8 @@ package types
 // verif:func CommitPacket
 //@ ensures [hash-of-the-packed-packet] result1 == nil ==> result0 == CommitAcknowledgement(first(packet.ABIPack()))
 //@ ensures [fails-iff-packing-fails] (result1 == nil) <==> (errof(packet.ABIPack()) == nil)
+
+// the acknowledgement value the message server packs (under contract so that the ghost call log shows which code was
+// acknowledged)
+// verif:func NewAcknowledgement
+//@ ensures [fields] result == Acknowledgement{Code: code, Result: results, Message: message, Relayer: relayer, FeeOption: feeOption}
